@@ -150,8 +150,15 @@ def _load_known(prop):
     return [k for k in data.get("known", []) if k["property"] == prop]
 
 
+def _scratch():
+    """runs against another copy of the sources (VF_REPO_SRC: hand mutants, seeded changes) must not touch the
+    evidence / replay files of /verif, which describe runs against /repo itself"""
+    return bool(os.environ.get("VF_REPO_SRC"))
+
+
 def _write_evidence(ctx, nviol):
-    os.makedirs(EVIDENCE, exist_ok=True)
+    evdir = os.path.join(tempfile.gettempdir(), "vf_scratch_evidence") if _scratch() else EVIDENCE
+    os.makedirs(evdir, exist_ok=True)
     ev = dict(
         property_id=ctx.prop,
         tier=ctx.tier,
@@ -162,7 +169,7 @@ def _write_evidence(ctx, nviol):
         wall_s=round(time.time() - ctx.t0, 2),
         violations=nviol,
     )
-    path = os.path.join(EVIDENCE, ctx.prop + ".json")
+    path = os.path.join(evdir, ctx.prop + ".json")
     tmp = path + ".tmp"
     with open(tmp, "w") as f:
         json.dump(ev, f, indent=1, sort_keys=True)
@@ -209,7 +216,8 @@ def main(prop, level, run, replay=None, argv=None):
         # violations
         if ctx.violations:
             rc = 1
-            os.makedirs(REPLAYS, exist_ok=True)
+            replays = os.path.join(tempfile.gettempdir(), "vf_scratch_replays") if _scratch() else REPLAYS
+            os.makedirs(replays, exist_ok=True)
             seen = set()
             written = 0
             for sig, detail, case in ctx.violations:
@@ -221,7 +229,7 @@ def main(prop, level, run, replay=None, argv=None):
                     break
                 name = "%s-%s-%s-%d.json" % (prop, str(sig.get("site", "x")).replace("/", "_").replace(" ", "_")[:40],
                                              str(sig.get("kind", "x")).replace(" ", "_")[:40], written)
-                path = os.path.join(REPLAYS, name)
+                path = os.path.join(replays, name)
                 with open(path, "w") as f:
                     json.dump(dict(property=prop, signature=_jsonable(sig), detail=detail, case=case,
                                    tier=ctx.tier, seed=ctx.seed), f, indent=1, sort_keys=True)
